@@ -398,11 +398,24 @@ func runC16(c *Ctx) {
 		}
 		// ConvertHCLToAmmo marshals exactly its argument
 		okM := false
-		EachInstr(conv, func(in ssa.Instruction) {
-			if IsCall(in, Spec{"gopkg.in/yaml.v2", "", "Marshal"}) {
-				okM = DerivesOnly(CC(in).Args[0], true, func(v ssa.Value) bool { return v == ssa.Value(conv.Params[0]) })
-			}
-		})
+		// (yaml.Marshal(v), or an Encoder's Encode(v), here or in a helper of the package it hands the value to)
+		for _, g := range FindFuncs(conv, 2, func(g *ssa.Function) bool { return PkgOf(g) == PkgOf(conv) && g.Parent() == nil }) {
+			EachInstr(g, func(in ssa.Instruction) {
+				var arg ssa.Value
+				switch {
+				case IsCall(in, Spec{"gopkg.in/yaml.v2", "", "Marshal"}, Spec{"gopkg.in/yaml.v3", "", "Marshal"}):
+					arg = CC(in).Args[0]
+				case IsCall(in, Spec{"gopkg.in/yaml.v2", "Encoder", "Encode"}, Spec{"gopkg.in/yaml.v3", "Encoder", "Encode"}):
+					arg = CC(in).Args[1]
+				default:
+					return
+				}
+				if g != conv && SoleCallSite(g) == nil {
+					return
+				}
+				okM = DerivesOnly(arg, true, func(v ssa.Value) bool { return v == ssa.Value(conv.Params[0]) })
+			})
+		}
 		c.Check(okM, "O16.5", fk(conv)+":marshals-the-parsed-hcl", conv.Pos(), "yaml.Marshal receives the parsed AmmoHCL value")
 		// DecodeMap: yaml.Unmarshal into a map, then DecodeAndValidate(map, &AmmoConfig)
 		okD := false
